@@ -825,6 +825,8 @@ def arr_index(I, a, k):
             shape.append(ln)
         elif isinstance(kk, (int, Sym)) and not isinstance(kk, bool):
             plan.append(('int', index_in_range(I, kk, n, f'dim {d}')))
+        elif type(kk).__name__ == 'FlatIdx':
+            plan.append(('int', kk))
         else:
             raise Unsupported(f'array index of type {type(kk).__name__}')
     if not shape:
@@ -865,6 +867,9 @@ def bool_select(I, a, m):
 
 def arr_write_target(I, a, what):
     base = a.base or a
+    from .values import _ids
+    a.cid = next(_ids)
+    base.cid = next(_ids)
     if base.old:
         I.ctx.event('frame', target=I.describe(base), where=what, static=False, pc=list(I.ctx.pc))
 
